@@ -24,6 +24,12 @@ def h(v):
     return v * 2 + 1
 
 
+# a callee reached through several attribute levels, with decoys of the same name on the way
+from types import SimpleNamespace as _NS      # noqa: E402
+ns = _NS(inner=_NS(deep=_NS(f=lambda v: v * 5 + 1, core=_NS(f=lambda v: v * 11)), f=lambda v: v * 3), deep=_NS(f=lambda v: v * 7, core=_NS(f=lambda v: v * 13)),
+         core=_NS(f=lambda v: v * 17), f=lambda v: v * 2)
+
+
 class Chain:
     """terms: list of (sign, atom); ops between them. atom: ('leaf', text) | ('paren', Chain) | ('call', Chain)."""
 
@@ -145,7 +151,7 @@ def _chunk(task):
     rnd = random.Random(seed)
     rng = np.random.default_rng(seed)
     d = pd.DataFrame({"y": rng.normal(size=N), "a": rng.uniform(1, 2, N), "b": rng.uniform(1, 2, N), "c": rng.uniform(1, 2, N)})
-    env = {"a": d["a"], "b": d["b"], "c": d["c"], "h": h, "rec": rec, "I": lambda v: v}
+    env = {"a": d["a"], "b": d["b"], "c": d["c"], "h": h, "rec": rec, "I": lambda v: v, "ns": ns}
     res = []
     cases = []
     for _ in range(count):
@@ -157,6 +163,14 @@ def _chunk(task):
         for big in ("9007199254740993", "12345678901234567891"):
             cases += [("I", f"I(a + {big})", f"I(a + {big})", set()), ("I", f"I( {big}*b )", f"I({big} * b)", set()),
                       ("rec", f"rec(a, 0.5, k={big}, s='x y')", f"rec(a, 0.5, k={big}, s='x y')", set())]
+    if seed % 1000 == 1:
+        # callees reached through 1..4 attribute levels; argument expressions with observable evaluation order (positional, then keyword)
+        for dotted in ("ns.f", "ns.inner.f", "ns.inner.deep.f", "ns.inner.deep.core.f", "ns.deep.core.f"):
+            cases += [("I", f"{dotted}(a)", f"{dotted}(a)", set()), ("I", f"I({dotted}( a+b ) * 2)", f"I({dotted}(a + b) * 2)", set()),
+                      ("rec", f"rec({dotted}(a), 0.5, k={dotted}(b), s='x y')", f"rec({dotted}(a), 0.5, k={dotted}(b), s='x y')", set())]
+        cases += [("rec", "rec(rec(a, 1), 0.5, k=rec(b, 2), s='x y')", "rec(rec(a, 1), 0.5, k=rec(b, 2), s='x y')", set()),
+                  ("rec", "rec(rec(a, 1) + rec(b, 2), 0.5, k=rec(c, 3) * rec(a, 4), s='x y')",
+                   "rec(rec(a, 1) + rec(b, 2), 0.5, k=rec(c, 3) * rec(a, 4), s='x y')", set())]
     for form, messy, canon, cls in cases:
         pytext = messy[1:-1] if form == "brace" else messy
         try:
@@ -204,6 +218,11 @@ def _chunk(task):
             if len(ga) != len(wa) or set(gk) != set(wk) or not all(same_value(x, y_) for x, y_ in zip(ga[:2], wa[:2])) \
                     or not same_value(gk["k"], wk["k"]) or gk["s"] != wk["s"]:
                 err = "value: the callee received different positional/keyword arguments than under Python's eval"
+            else:
+                order = lambda calls: [float(c_[0][1]) for c_ in calls if len(c_[0]) > 1 and np.ndim(c_[0][1]) == 0]      # noqa: E731
+                if order(got_calls[-len(want_calls):]) != order(want_calls):
+                    err = (f"value: argument expressions were evaluated in the order {order(got_calls[-len(want_calls):])}, "
+                           f"Python evaluates them in the order {order(want_calls)}")
         irregular = form == "rec" and ("  " in canon or "\t" in canon or "' " in canon)
         # (a literal with irregular blanks: the value is judged above; how such a literal is spelled in the name is left open)
         if err is None and names != [canon] and not irregular:
